@@ -125,13 +125,29 @@ var (
 // codecNormalize maps a violation inside generated code to a site signature
 // that does not depend on the particular record: type names become record
 // kinds, field names and counters are abstracted.
-func codecNormalize(kinds map[string]map[string]string) func(j *Job, v *interp.Violation) Sig {
-	return func(j *Job, v *interp.Violation) Sig {
+func codecNormalize(kinds map[string]map[string]string) func(j *Job, pkg string, v *interp.Violation) Sig {
+	return func(j *Job, pkg string, v *interp.Violation) Sig {
 		s := Sig{Kind: v.Kind, ID: v.ID, Func: v.Func, Stmt: v.Stmt}
 		fn := v.Func
 		stmt := v.Stmt
-		inGenerated := strings.Contains(v.Site, "/gen.go:")
+		site := v.Site
+		// attribute failures inside iohelp / the standard library to the
+		// generated statement that called into them
+		if !strings.Contains(site, "/gen.go:") && !strings.Contains(site, "/zz_glue.go:") {
+			for _, f := range v.Stack {
+				if strings.Contains(f.Site, "/gen.go:") {
+					s.ID = v.ID + " in " + shortFunc(v.Func)
+					fn, stmt, site = f.Func, f.Stmt, f.Site
+					if i := strings.LastIndex(fn, "/"); i >= 0 {
+						fn = fn[i+1:]
+					}
+					break
+				}
+			}
+		}
+		inGenerated := strings.Contains(site, "/gen.go:")
 		// strip package qualifier
+		fn0 := fn
 		for pkg, km := range kinds {
 			if !strings.Contains(fn, pkg+".") {
 				continue
@@ -155,7 +171,7 @@ func codecNormalize(kinds map[string]map[string]string) func(j *Job, v *interp.V
 			if s.Class == "" {
 				// class: kind of the receiver type
 				for _, n := range names {
-					if strings.Contains(v.Func, n+")") || strings.Contains(v.Func, strings.ToLower(n[:1])+n[1:]+")") {
+					if strings.Contains(fn0, n+")") || strings.Contains(fn0, strings.ToLower(n[:1])+n[1:]+")") {
 						s.Class = km[n]
 						break
 					}
@@ -169,9 +185,15 @@ func codecNormalize(kinds map[string]map[string]string) func(j *Job, v *interp.V
 		if strings.HasPrefix(fn, "VH_") || strings.Contains(fn, ".VH_") || strings.Contains(fn, "vEncode") {
 			fn = fn[strings.LastIndex(fn, ".")+1:]
 		}
+		fn = strings.TrimPrefix(fn, "(*")
+		fn = strings.TrimPrefix(fn, "(")
+		fn = strings.Replace(fn, ").", ".", 1)
 		s.Func, s.Stmt = fn, stmt
 		if s.Class == "" {
-			s.Class = j.Meta["context"]
+			// failures in harness code: classify by the kind of the record under test
+			if km, ok := kinds[strings.TrimPrefix(pkg, "corp/")]; ok {
+				s.Class = km["Rec"]
+			}
 		}
 		return s
 	}
